@@ -148,7 +148,14 @@ pub fn hist(case: &Value) -> Value {
             "d" => r.add_dependency(Dependency {
                 from: ident(case, op[1].as_u64().unwrap()),
                 to: ident(case, op[2].as_u64().unwrap()),
-                dependency_type: DependencyType::Direct,
+                // optional 4th element: the kind of the dependency record (a label; every kind constrains the order)
+                dependency_type: match op.get(3).and_then(|v| v.as_u64()).unwrap_or(0) % 5 {
+                    0 => DependencyType::Direct,
+                    1 => DependencyType::Field,
+                    2 => DependencyType::Variant,
+                    3 => DependencyType::Import,
+                    _ => DependencyType::Generic,
+                },
             }),
             _ => match r.resolve_build_order() {
                 Ok(l) => outs.push(json!({"ok": true, "out": l.iter().map(back).collect::<Vec<_>>() })),
